@@ -80,3 +80,40 @@ func VerifDepthUnits() {
 	vAssert(d2 <= d1, "recursion-depth-not-bounded-by-nesting-limit")
 	vReach("depth")
 }
+
+// prefix + repeated unit: nesting that only exists behind a particular head (binding patterns in
+// declarations, parameters, catch clauses and for heads; class heritage; template substitutions)
+var vnDepthPrefUnits = [][2]string{
+	{"let ", "{a:"}, {"var ", "{a:"}, {"const ", "{a:"}, {"let ", "[{a:"}, {"let ", "{a:["}, {"let {a=", "{a:"},
+	{"function f(", "{a:"}, {"function f(", "[{a:"}, {"function f(a=", "{a:"}, {"(", "{a:"}, {"async(", "{a:"},
+	{"try{}catch(", "{a:"}, {"try{}catch(", "["}, {"for(let ", "{a:"}, {"for(var ", "[{a:"}, {"for(", "{a:"},
+	{"class A{b(", "{a:"}, {"x={b(", "{a:"}, {"x=({a:", "{a:"}, {"[x=", "{a:"}, {"({a:", "[{a:"},
+}
+
+func VerifDepthPrefUnits() {
+	ui := vRange("unit", 0, len(vnDepthPrefUnits)-1)
+	pu := vnDepthPrefUnits[ui]
+	rep := func(k int) []byte {
+		b := []byte(pu[0])
+		for i := 0; i < k; i++ {
+			b = append(b, pu[1]...)
+		}
+		return append(b, 'a')
+	}
+	if !vSymbolic() {
+		_, err := Parse(parse.NewInputBytes(rep(1500000)), Options{})
+		_ = err
+		return
+	}
+	L := vParam("L", 3)
+	NestedStmtLimit, NestedExprLimit = L, L
+	k1, k2 := L+3, vParam("K", 9)
+	vDepthReset()
+	_, _ = Parse(parse.NewInputBytes(rep(k1)), Options{})
+	d1 := vDepth()
+	vDepthReset()
+	_, _ = Parse(parse.NewInputBytes(rep(k2)), Options{})
+	d2 := vDepth()
+	vAssert(d2 <= d1, "recursion-depth-not-bounded-by-nesting-limit")
+	vReach("depth")
+}
